@@ -277,7 +277,51 @@ const ONE_BYTE_OPS: &[u8] = &[
 ];
 const ARITH_OPS: &[u8] = &[16, 17, 18, 19, 20, 21, 22, 23, 24, 25, 26, 27, 60, 61];
 
+/// an integer whose bit length is uniform in 0..=max_bits (so every limb boundary is hit), often
+/// exactly at 2^k - 1 / 2^k, sometimes negative, sometimes with a redundant leading byte
+fn limb_int(r: &mut Rng, max_bits: u32) -> Value {
+    let bits = r.below(max_bits as u64 + 1) as u32;
+    let mut v: u128 = if bits == 0 { 0 } else { (1u128 << (bits - 1)) | (((r.next() as u128) << 64 | r.next() as u128) & ((1u128 << (bits - 1)) - 1)) };
+    match r.below(6) {
+        0 if bits > 0 => v = (1u128 << bits) - 1,
+        1 if bits > 0 => v = 1u128 << (bits - 1),
+        _ => {}
+    }
+    let mut b: Vec<u8> = v.to_be_bytes().to_vec();
+    while !b.is_empty() && b[0] == 0 {
+        b.remove(0);
+    }
+    if !b.is_empty() && b[0] & 0x80 != 0 {
+        b.insert(0, 0);
+    }
+    if r.chance(1, 8) && !b.is_empty() {
+        // negate (two's complement of the same width + sign byte trimmed)
+        let mut w = b.clone();
+        for x in w.iter_mut() {
+            *x = !*x;
+        }
+        for i in (0..w.len()).rev() {
+            let (x, c) = w[i].overflowing_add(1);
+            w[i] = x;
+            if !c {
+                break;
+            }
+        }
+        while w.len() > 1 && w[0] == 0xff && w[1] & 0x80 != 0 {
+            w.remove(0);
+        }
+        b = w;
+    } else if r.chance(1, 12) {
+        b.insert(0, 0);
+    }
+    atom_json(&b)
+}
+
 fn rand_arg(r: &mut Rng, big: bool) -> Value {
+    if r.chance(1, 3) {
+        let mb = *r.pick(&[26u32, 26, 40, 64, 100]);
+        return limb_int(r, mb);
+    }
     match r.below(20) {
         0 => json!({"f": atom_json(&rand_atom_bytes(r, 4)), "r": atom_json(&rand_atom_bytes(r, 4))}),
         1 if big => {
@@ -500,7 +544,8 @@ fn main() {
                         };
                         let mut t = atom_json(&[]);
                         for i in 0..arity {
-                            let it = match r.below(9) {
+                            let it = match r.below(16) {
+                                9..=15 => limb_int(&mut r, 26),
                                 0 => atom_json(&[0x7f, 0xff, 0xff, 0xff, 0xff, 0xff, 0xff, 0xff]),
                                 1 => atom_json(&[0x00, 0xff, 0xff, 0xff, 0xff, 0xff, 0xff, 0xff, 0xff]),
                                 2 => atom_json(&[0x03, 0xff, 0xff, 0xff]),
